@@ -59,8 +59,9 @@ class CFG:
     """kinds: op(stmt,next) cond(test,then,els) await(test|True|False,next,label)
     loopentry(head) head(test|True,body,exit,label) backedge(head) cont(head) end"""
 
-    def __init__(self, fn: ast.AsyncFunctionDef | ast.FunctionDef, subs: dict):
+    def __init__(self, fn: ast.AsyncFunctionDef | ast.FunctionDef, subs: dict, helpers: dict | None = None):
         self.subs = subs
+        self.helpers = helpers or {}  # plain (non-async) local functions: straight-line statements + `return <expr>`
         self.labels = {}
         self.nlabel = 0
         self.end = Node("end")
@@ -134,6 +135,20 @@ class CFG:
                 body = [s for s in fn.body if not isinstance(s, (ast.Nonlocal, ast.Global))]
                 # loops of the caller are not visible inside the callee; return jumps to nxt
                 return self.block(body, nxt, None, nxt, depth + 1)
+            if fname in self.helpers:
+                # await helper(): the helper's statements run (in zero time) where the await is reached, then its
+                # return value is awaited -- the process has executed something, so the await is no longer "first"
+                if e.args or e.keywords:
+                    raise RUnsupported("helper arguments")
+                fn = self.helpers[fname]
+                body = [s for s in fn.body if not isinstance(s, (ast.Nonlocal, ast.Global))]
+                if not body or not isinstance(body[-1], ast.Return) or body[-1].value is None:
+                    raise RUnsupported("helper without return value")
+                for st in body[:-1]:
+                    if not isinstance(st, (ast.AugAssign, ast.Pass)):
+                        raise RUnsupported("helper statement " + type(st).__name__)
+                n = self.await_(body[-1].value, nxt, loop, ret, depth)
+                return self.block(body[:-1], n, None, None, depth + 1)
         const = _const_truth(e)
         n = Node("await", test=e if const is None else const, next=nxt)
         self._label(n, "a")
@@ -323,13 +338,42 @@ class RefProc:
             if isinstance(n, (ast.AsyncFunctionDef, ast.FunctionDef)):
                 fns[n.name] = n
         self.fn = fns[proc_name]
-        self.cfg = CFG(self.fn, {k: v for k, v in fns.items() if k != proc_name and isinstance(v, ast.AsyncFunctionDef)})
+        self.cfg = CFG(self.fn, {k: v for k, v in fns.items() if k != proc_name and isinstance(v, ast.AsyncFunctionDef)},
+                       {k: v for k, v in fns.items() if k.startswith("hlp") and isinstance(v, ast.FunctionDef)})
         self.push_targets = set()
         self._scan_push(self.fn)
         for k, v in fns.items():
             if k != proc_name:
                 self._scan_push(v)
         self.pcs = [START] + list(self.cfg.labels)
+        self.step_cond = None  # source text of std.sequential(step_cond=lambda: <expr>): when false the whole context holds
+
+    def _with_step_cond(self, P, pc, env, inputs, paths):
+        """std.sequential(..., step_cond=c): at an active edge without reset the process body (and reset_pushed) runs only
+        when c is true; otherwise every object of the context, the suspension point and pushed signals keep their value"""
+        if self.step_cond is None:
+            return paths
+        sig_env = dict(env)
+        sig_env.update(inputs)
+        objs = self.objs
+
+        def reader(name):
+            o = objs.get(name)
+            if o is None:
+                raise RUnsupported("unknown name " + name)
+            return RVal(o.ty, sig_env[name])
+
+        X = Expr(P, objs, reader)
+        c = X.truth(X.ev(ast.parse(self.step_cond, mode="eval").body))
+        out = []
+        for pth in paths:
+            g = _guard(P, pth.guard, c, True)
+            if g is not False:
+                out.append(Path(g, pth.pc, pth.env, pth.trace))
+        hold = _guard(P, True, c, False)
+        if hold is not False:
+            out.append(Path(hold, pc, dict(env)))
+        return out
 
     def _scan_push(self, fn):
         for n in ast.walk(fn):
@@ -350,12 +394,12 @@ class RefProc:
     def written(self):
         """names assigned anywhere in the process (targets of reset)"""
         out = set()
-        fns = [self.fn] + list(self.cfg.subs.values())
+        fns = [self.fn] + list(self.cfg.subs.values()) + list(self.cfg.helpers.values())
         for fn in fns:
             for n in ast.walk(fn):
                 if isinstance(n, ast.AugAssign):
                     try:
-                        out.add(self._tname(n.target))
+                        out.add(self._tname(n.target.value if isinstance(n.target, ast.Subscript) else n.target))
                     except RUnsupported:
                         pass
         return out
@@ -389,7 +433,33 @@ class RefProc:
                     return
                 if k == "op":
                     s = node.stmt
-                    if isinstance(s, ast.AugAssign):
+                    if isinstance(s, ast.AugAssign) and isinstance(s.target, ast.Subscript):
+                        # self.x[hi:lo] <<= v  /  self.x[i] <<= v   (signals, constant positions): the other bits keep
+                        # what this activation has scheduled so far, else the current value
+                        if not isinstance(s.op, ast.LShift):
+                            raise RUnsupported("partial target with " + type(s.op).__name__)
+                        tn = self._tname(s.target.value)
+                        o = objs[tn]
+                        if o.kind == "var":
+                            raise RUnsupported("<<= on variable")
+                        sl = s.target.slice
+                        if isinstance(sl, ast.Constant) and isinstance(sl.value, int):
+                            hi = lo = sl.value
+                            part_t = BIT
+                        elif isinstance(sl, ast.Slice) and isinstance(sl.lower, ast.Constant) and isinstance(sl.upper, ast.Constant):
+                            hi, lo = sl.lower.value, sl.upper.value
+                            part_t = SP.BV(hi - lo + 1)
+                        else:
+                            raise RUnsupported("partial target")
+                        pv = convert(P, X.ev(s.value), part_t)
+                        cur = SP._bits(P, pending[tn] if tn in pending else sig_env[tn], o.ty)
+                        wpart = hi - lo + 1
+                        mask = ((1 << wpart) - 1) << lo
+                        keep = ((1 << o.ty.w) - 1) & ~mask
+                        nb = P.bor(P.band(cur, P.const(keep)), P.shl(P.band(pv, P.const((1 << wpart) - 1)), lo))
+                        pending = dict(pending)
+                        pending[tn] = SP._from_bits(P, nb, o.ty)
+                    elif isinstance(s, ast.AugAssign):
                         tn = self._tname(s.target)
                         o = objs[tn]
                         val = convert(P, X.ev(s.value), o.ty)
@@ -534,7 +604,7 @@ class RefProc:
             # locals constructed earlier keep living across states: readable as ordinary objects
             locs = frozenset(n for n, o in objs.items() if o.local and o.kind == "var")
             run(node, True, False, varenv0, {}, frozenset(), locs, frozenset(), True)
-        return paths
+        return self._with_step_cond(P, pc, env, inputs, paths)
 
 
 def _guard(P, guard, c, val):
